@@ -49,7 +49,7 @@ Proof.
     destruct (rp_abs_recv W b12 a m) as [r a1].
     specialize (IH a1). destruct (rp_abs_run W b12 a1 t) as [rs a2]. cbn [fst snd] in *.
     constructor; [|exact IH].
-    intro Hm. destruct (Hf Hm) as [_ Hr]. destruct r; try reflexivity. congruence.
+    intro Hm. destruct Hf as [_ Hr]; [congruence|]. destruct r; try reflexivity. congruence.
 Qed.
 
 Lemma e2e_accepted_map : forall pivs sched rs,
